@@ -565,15 +565,12 @@ func compareImports(c *vh.Ctx, label string, raw []byte, toCoq bool, variant int
 	specRaw, err := (&tls.Fingerprinter{}).RawClientHello(record(raw))
 	if err != nil {
 		c.Count("skip-raw-import-error")
+		c.Count("skip-raw-import-error/" + label + ": " + err.Error())
 		return
 	}
 	specJSON := &tls.ClientHelloSpec{}
 	if err := specJSON.UnmarshalJSON(rj.js); err != nil {
-		if strings.Contains(err.Error(), "not JSON compatible") {
-			c.Count("skip-extension-not-json-compatible")
-			return
-		}
-		c.Fail("json-import/"+label, "a ClientHello rendered with the dictionaries' own names is rejected by the JSON importer", input, err.Error(), "imports")
+		fail(c, "json-import/"+label, "a ClientHello rendered with the dictionaries' own names is rejected by the JSON importer", input, err.Error(), "imports")
 		return
 	}
 	c.Count("hellos-through-both-importers")
@@ -589,7 +586,7 @@ func compareImports(c *vh.Ctx, label string, raw []byte, toCoq bool, variant int
 		want[i] = unGrease(s)
 	}
 	if fmt.Sprint(specJSON.CipherSuites) != fmt.Sprint(want) {
-		c.Fail("json-import/"+label+"/cipher_suites", "JSON cipher suite names map to other code points than the ones rendered", input, fmt.Sprint(specJSON.CipherSuites), fmt.Sprint(want))
+		fail(c, "json-import/"+label+"/cipher_suites", "JSON cipher suite names map to other code points than the ones rendered", input, fmt.Sprint(specJSON.CipherSuites), fmt.Sprint(want))
 	}
 	// both specs onto fresh connections, same deterministic Config.Rand
 	seed := c.Rng.Int63()
@@ -597,7 +594,7 @@ func compareImports(c *vh.Ctx, label string, raw []byte, toCoq bool, variant int
 	jsW, errJ := build(specJSON, tls.HelloCustom, seed)
 	if errR != nil || errJ != nil {
 		if (errR == nil) != (errJ == nil) {
-			c.Fail("json-vs-raw/"+label+"/build", "only one of the two imported specs yields a ClientHello", input, fmt.Sprint("json: ", errJ), fmt.Sprint("raw: ", errR))
+			fail(c, "json-vs-raw/"+label+"/build", "only one of the two imported specs yields a ClientHello", input, fmt.Sprint("json: ", errJ), fmt.Sprint("raw: ", errR))
 		} else {
 			c.Count("skip-both-imports-fail-to-build")
 		}
@@ -611,10 +608,10 @@ func compareImports(c *vh.Ctx, label string, raw []byte, toCoq bool, variant int
 	sr, er := wr.normalise()
 	sj, ej := wj.normalise()
 	if fmt.Sprint(sr) != fmt.Sprint(sj) {
-		c.Fail("json-vs-raw/"+label+"/cipher_suites", "cipher suites differ between the JSON import and the raw import", input, fmt.Sprint(sj), fmt.Sprint(sr))
+		fail(c, "json-vs-raw/"+label+"/cipher_suites", "cipher suites differ between the JSON import and the raw import", input, fmt.Sprint(sj), fmt.Sprint(sr))
 	}
 	if !bytes.Equal(wr.comp, wj.comp) {
-		c.Fail("json-vs-raw/"+label+"/compression_methods", "compression methods differ between the JSON import and the raw import", input, wj.comp, wr.comp)
+		fail(c, "json-vs-raw/"+label+"/compression_methods", "compression methods differ between the JSON import and the raw import", input, wj.comp, wr.comp)
 	}
 	ids := func(l []wext) (r []uint16) {
 		for _, e := range l {
@@ -623,11 +620,11 @@ func compareImports(c *vh.Ctx, label string, raw []byte, toCoq bool, variant int
 		return
 	}
 	if fmt.Sprint(ids(er)) != fmt.Sprint(ids(ej)) {
-		c.Fail("json-vs-raw/"+label+"/extension-order", "extension order differs between the JSON import and the raw import", input, fmt.Sprint(ids(ej)), fmt.Sprint(ids(er)))
+		fail(c, "json-vs-raw/"+label+"/extension-order", "extension order differs between the JSON import and the raw import", input, fmt.Sprint(ids(ej)), fmt.Sprint(ids(er)))
 	} else {
 		for i := range er {
 			if !bytes.Equal(er[i].data, ej[i].data) {
-				c.Fail(fmt.Sprintf("json-vs-raw/%s/extension-%d", label, er[i].id), "extension parameters differ between the JSON import and the raw import (modulo GREASE and per-connection material)",
+				fail(c, fmt.Sprintf("json-vs-raw/%s/extension-%d", label, er[i].id), "extension parameters differ between the JSON import and the raw import (modulo GREASE and per-connection material)",
 					input, vh.Hex(ej[i].data), vh.Hex(er[i].data))
 			}
 		}
